@@ -2,34 +2,18 @@ package shimagent
 
 //vsym:pkg github.com/theparanoids/ysshra/agent/shimagent
 //vsym:include shim/world.go
+//vsym:include shim/peek.go || shim/peek_bb.go
 //vsym:entry H20_wait_broadcast
-//vsym:model golang.org/x/crypto/ssh/agent.NewClient m20NewClient
 //vsym:replay adapter h20_replay_test.go
 //vsym:expect-cover C20.wait-in-range C20.wait-out-of-range C20.broadcast-in-range C20.broadcast-out-of-range
-//vsym:bound H20_wait_broadcast: every message code 0..255 (symbolic byte) for Wait and for Broadcast on a server built by newShimAgent
+//vsym:bound H20_wait_broadcast: every message code 0..255 (symbolic byte) for Wait and for Broadcast, followed by a Broadcast of every other code, on a server built by the exported constructor; observed through the lock / condition-variable events only (no knowledge of the representation)
 //vsym:assume sync.Cond and its Locker are modelled as ghost events (Wait atomically unlocks and enqueues, Broadcast wakes all enqueued: sync's contract); the wake-up itself and its timing are not decided
 
-import (
-	"golang.org/x/crypto/ssh/agent"
-)
 
-var m20Up *mwUpstream
-
-func m20NewClient(rw interface{ Read([]byte) (int, error); Write([]byte) (int, error) }) agent.ExtendedAgent {
-	return m20Up
-}
 
 func H20_wait_broadcast() {
-	m20Up = &mwUpstream{failAt: -1}
-	s, err := newShimAgent(&mwConn{}, false)
-	vAssume(err == nil)
-	// the 40 condition variables are distinct objects with distinct lockers
-	for i := range s.conds {
-		vAssert(s.conds[i] != nil && s.conds[i].L != nil, "C20.condition-variables-initialised")
-		for j := 0; j < i; j++ {
-			vAssert(s.conds[i] != s.conds[j], "C20.one-condition-variable-per-code")
-		}
-	}
+	up := &mwUpstream{failAt: -1}
+	s := mwNewServer(up, false)
 	msg := vNondetU8("code")
 	isWait := vChoose(2, "wait-or-broadcast") == 0
 	vSyncReset()
@@ -43,8 +27,9 @@ func H20_wait_broadcast() {
 	})
 	vAssert(!crashed, "C20.no-crash-for-any-code")
 	vAssert(rerr == nil, "C20.returns-nil")
+	first := vSyncLog()
 	if msg >= 40 {
-		vAssert(vSyncLog() == "", "C20.out-of-range-code-returns-immediately")
+		vAssert(first == "", "C20.out-of-range-code-returns-immediately")
 		if isWait {
 			vReach("C20.wait-out-of-range")
 		} else {
@@ -52,21 +37,40 @@ func H20_wait_broadcast() {
 		}
 		return
 	}
-	k := vPick(int(msg), 0, 39)
-	for i := range s.conds {
-		ev := vSyncEventsOf(s.conds[i])
-		lk := vSyncEventsOf(s.conds[i].L)
-		if i != k {
-			vAssert(ev == "" && lk == "", "C20.other-codes-untouched")
-			continue
-		}
-		vAssert(lk == "Lock;Unlock;", "C20.locker-held-around-the-condition-operation")
-		if isWait {
-			vAssert(ev == "CondWait;", "C20.wait-blocks-on-its-own-code")
-			vReach("C20.wait-in-range")
-		} else {
-			vAssert(ev == "CondBroadcast;", "C20.broadcast-wakes-all-waiters-of-its-code")
-			vReach("C20.broadcast-in-range")
-		}
+	// objects are numbered in the log by first appearance: #1 the locker, #2
+	// the condition variable of this code
+	if isWait {
+		vAssert(first == "Lock#1;CondWait#2;Unlock#1;", "C20.wait-blocks-on-its-own-code-with-the-locker-held")
+		vReach("C20.wait-in-range")
+	} else {
+		vAssert(first == "Lock#1;CondBroadcast#2;Unlock#1;", "C20.broadcast-wakes-all-waiters-of-its-code-with-the-locker-held")
+		vReach("C20.broadcast-in-range")
+	}
+	// a request with another (or the same) code: its own condition variable
+	// and locker, those of this code exactly when the codes are equal
+	other := vNondetU8("other-code")
+	crashed = vCatch(func() { rerr = s.Broadcast(other) })
+	vAssert(!crashed && rerr == nil, "C20.no-crash-for-any-code")
+	second := vSyncLog()[len(first):]
+	switch {
+	case other >= 40:
+		vAssert(second == "", "C20.out-of-range-code-returns-immediately")
+	case other == msg:
+		vAssert(second == "Lock#1;CondBroadcast#2;Unlock#1;", "C20.same-code-same-condition-variable")
+	default:
+		vAssert(second == "Lock#3;CondBroadcast#4;Unlock#3;", "C20.one-condition-variable-and-locker-per-code")
+	}
+	// another agent in the same process: a request it receives wakes its own
+	// waiters, not this agent's ("on any connection to the same agent")
+	before := len(vSyncLog())
+	s2 := mwNewServer(&mwUpstream{failAt: -1}, false)
+	crashed = vCatch(func() { rerr = s2.Broadcast(msg) })
+	vAssert(!crashed && rerr == nil, "C20.no-crash-for-any-code")
+	third := vSyncLog()[before:]
+	// fresh objects: numbered after every object seen so far (2 or 4)
+	if other < 40 && other != msg {
+		vAssert(third == "Lock#5;CondBroadcast#6;Unlock#5;", "C20.condition-variables-are-per-agent")
+	} else {
+		vAssert(third == "Lock#3;CondBroadcast#4;Unlock#3;", "C20.condition-variables-are-per-agent")
 	}
 }
